@@ -347,6 +347,29 @@ def const_program(case):
             f'builtin.module {{\n{glob}  func.func @dev() {{\n    %0 = memref.get_global @g : {l3}\n    %1 = "snax.layout_cast"(%0) : ({l3}) -> {l3t}\n    "test.op"(%1) : ({l3t}) -> ()\n    func.return\n  }}\n'
             f'  func.func @host() {{\n    %2 = memref.get_global @g : {l3}\n    "test.op"(%2) : ({l3}) -> ()\n    func.return\n  }}\n}}'
         )
+    elif case["kind"] in ("global-two-layouts", "global-chain", "global-msc-two-layouts"):
+        # two *different* target layouts for one global: two casts of one read, a chain of two casts, or two casts on top of
+        # a shared memory_space_cast
+        tsl2 = tsl_text(tb, case["steps2"], 0)
+        l3u = f'memref<{sh}x{el}, {tsl2}, "L3">'
+        if case["kind"] == "global-two-layouts":
+            src = (
+                f'builtin.module {{\n{glob}  %0 = memref.get_global @g : {l3}\n  %1 = "snax.layout_cast"(%0) : ({l3}) -> {l3t}\n  "test.op"(%1) : ({l3t}) -> ()\n'
+                f'  %3 = "snax.layout_cast"(%0) : ({l3}) -> {l3u}\n  "test.op"(%3) : ({l3u}) -> ()\n}}'
+            )
+        elif case["kind"] == "global-chain":
+            src = (
+                f'builtin.module {{\n{glob}  %0 = memref.get_global @g : {l3}\n  %1 = "snax.layout_cast"(%0) : ({l3}) -> {l3t}\n'
+                f'  %3 = "snax.layout_cast"(%1) : ({l3t}) -> {l3u}\n  "test.op"(%3) : ({l3u}) -> ()\n}}'
+            )
+        else:
+            l1 = f'memref<{sh}x{el}, "L1">'
+            l1t, l1u = f'memref<{sh}x{el}, {tsl}, "L1">', f'memref<{sh}x{el}, {tsl2}, "L1">'
+            src = (
+                f'builtin.module {{\n{glob}  %0 = memref.get_global @g : {l3}\n  %m = "memref.memory_space_cast"(%0) : ({l3}) -> {l1}\n'
+                f'  %1 = "snax.layout_cast"(%m) : ({l1}) -> {l1t}\n  "test.op"(%1) : ({l1t}) -> ()\n'
+                f'  %3 = "snax.layout_cast"(%m) : ({l1}) -> {l1u}\n  "test.op"(%3) : ({l1u}) -> ()\n}}'
+            )
     else:  # global-two-casts: one read feeding two casts
         src = (
             f'builtin.module {{\n{glob}  %0 = memref.get_global @g : {l3}\n  %1 = "snax.layout_cast"(%0) : ({l3}) -> {l3t}\n  "test.op"(%1) : ({l3t}) -> ()\n'
@@ -493,7 +516,8 @@ def gen_case(rng, tier):
         rank = rng.choice([1, 2, 2, 3])
         depth = [rng.choice([1, 2, 2, 3]) for _ in range(rank)]
         tb = [[rng.choice([1, 2, 2, 3, 4]) for _ in range(depth[d])] for d in range(rank)]
-        return {"fam": "const", "tb": tb, "steps": gen_steps(rng, tb, pad=False), "el": rng.choice(["i8", "i32"]), "kind": rng.choice(["const", "const", "global", "global", "global-two-gets", "global-two-casts", "global-two-funcs"]), "mul": rng.choice([1, 3, 7])}
+        return {"fam": "const", "tb": tb, "steps": gen_steps(rng, tb, pad=False), "steps2": gen_steps(rng, tb, pad=False), "el": rng.choice(["i8", "i32"]),
+                "kind": rng.choice(["const", "const", "global", "global", "global-two-gets", "global-two-casts", "global-two-funcs", "global-two-layouts", "global-chain", "global-msc-two-layouts"]), "mul": rng.choice([1, 3, 7])}
     accum = rng.choice([0, 0, 0, 0.3])
     uninit = rng.choice([0, 0, 0, 0.4])
     ast = KGen(rng, accum, inplace=rng.choice([0, 0, 0.2]), uninit=uninit).program()
